@@ -163,6 +163,7 @@ prop("C18", [
     S(CLIENT, "^TestC18Lengths$", kind="plain"),
     S(CLIENT, "^TestC18$", q=5000, t=100000, shards=4),
     S(CLIENT, "^TestC18Multicast$", kind="plain", q=200, t=20000),
+    S(CLIENT, "^TestC18AuditClientBuffer$", kind="plain"),
     S(CLIENT, "^TestC18Concurrent$", kind="plain", race=True, q=200, t=5000),
     # the same stress without the race detector: its instrumentation changes the timing so much that
     # interleavings which give duplicate sequence numbers stop occurring
@@ -170,6 +171,7 @@ prop("C18", [
 ], ["needs AF_NETLINK sockets (the check is undecided without them)",
     "only side-effect-free requests: NETLINK_ROUTE message types above RTM_MAX with the REQUEST flag, which the kernel refuses with EOPNOTSUPP and echoes",
     "a zero-length datagram cannot be sent between netlink sockets (ENODATA); it is covered at parser level only",
+    "audit-client stage: one socket on NETLINK_AUDIT, requests of the unknown message type 1098 only (refused with EINVAL before the audit subsystem looks at anything else; no state is read or changed)",
     "multicast stage: addresses are added to and removed from the loopback device of a private network namespace (unshare on one locked thread); without the privilege the stage is skipped and its class stays empty"],
    nontrivial_classes=["send-echoed", "send-reply-fills-read-buffer-exactly", "foreign-header-sized-refused", "foreign-short-refused", "parser-short", "parser-ok", "concurrent-batch", "concurrent-batch-with-failing-sends", "client-port-id-differs-from-process-id"])
 
